@@ -223,6 +223,14 @@ impl Workspace {
     }
 }
 
+#[cfg(oal_verif)]
+impl Workspace {
+    /// Verification hook: read-only view of the server's copy of the documents.
+    pub fn verif_docs(&self) -> &HashMap<Locator, String> {
+        &self.docs
+    }
+}
+
 struct WorkspaceLoader<'a>(&'a mut Workspace);
 
 impl Loader<anyhow::Error> for WorkspaceLoader<'_> {
